@@ -5,6 +5,7 @@ by the real compose_models / compose_models_flat / generate_code and executed.  
 emits each registered model exactly once with the root first (all inputs); for tree-shaped graphs
 the nested module has the same class table (name, fields, evaluated annotations, defaults) and every
 class sits inside the class that references it."""
+import itertools
 import typing
 
 from mc import alphabet as A
@@ -32,12 +33,49 @@ def _cases(tier):
     # a policy under which structurally identical small models stay separate (twins under one parent)
     for spec in A.graph_specs(3, wrappers=("plain", "list")):
         yield {"g": spec, "merge": "number_10", "fws": ["pydantic", "dataclasses", "attrs"]}
+    # several root models (what several -m names give): a forest of small trees with disjoint key sets; and the same with one
+    # object shared by all roots (flat completeness; nested judged only when tree-shaped)
+    small = [g for g in A.graph_specs(2, payloads=("P1", "P3"), wrappers=("plain", "list"))]
+    for g1 in small:
+        for g2 in small:
+            for shared in (False, True):
+                yield {"roots": [g1, g2], "shared": shared, "merge": "default", "fws": ["pydantic", "dataclasses"]}
+    for trio in itertools.product(small[:4], repeat=3):
+        yield {"roots": list(trio), "shared": False, "merge": "default", "fws": ["pydantic", "attrs"]}
+        yield {"roots": list(trio), "shared": True, "merge": "default", "fws": ["dataclasses"]}
     for v in A.VALUE_NAMES:
         for v2 in A.VALUE_NAMES[:20] if tier == "quick" else A.VALUE_NAMES:
             yield {"h": [v, v2], "merge": "default", "fws": ["pydantic", "base"]}
 
 
+def _suffix_keys(v, sfx):
+    if isinstance(v, dict):
+        return {k + sfx: _suffix_keys(x, sfx) for k, x in v.items()}
+    if isinstance(v, list):
+        return [_suffix_keys(x, sfx) for x in v]
+    return v
+
+
+def _roots(case):
+    roots = {}
+    for i, g in enumerate(case["roots"]):
+        samples = [_suffix_keys(o, f"_r{i}") for o in A.graph_samples(g)]
+        if case.get("shared"):
+            for o in samples:
+                o["owner"] = {"login": "x", "uid": 1, "url": "u"}
+        roots[f"Root{i}"] = samples
+    return roots
+
+
+def _build(case, samples):
+    if "roots" in case:
+        return pipeline.build_roots(_roots(case), types=pipeline.ALL_TYPES, dkr=[r"k\d"], merge=case["merge"])
+    return pipeline.build(samples, types=pipeline.ALL_TYPES, dkr=[r"k\d"], merge=case["merge"])
+
+
 def _samples(case):
+    if "roots" in case:
+        return None
     if "g" in case:
         return A.graph_samples(case["g"])
     return [A.obj1(n) for n in case["h"]]
@@ -76,7 +114,8 @@ def class_table(prog, b, fw):
 
 def execute(case):
     samples = _samples(case)
-    shape = ["G" + A.graph_name(case["g"])] if "g" in case else list(case["h"])
+    shape = ["G" + A.graph_name(case["g"])] if "g" in case else (list(case["h"]) if "h" in case else
+                                                               ["R" + A.graph_name(g) for g in case["roots"]] + (["shared_owner"] if case.get("shared") else []))
     viol, obs, outcomes = [], [], []
     execs = 0
     seen = set()
@@ -92,7 +131,7 @@ def execute(case):
         tree = None
         for layout in ("flat", "nested"):
             try:
-                b = pipeline.build(samples, types=pipeline.ALL_TYPES, dkr=[r"k\d"], merge=case["merge"])
+                b = _build(case, samples)
                 tree = judge.is_tree(b.reg)
                 single_root = judge.n_roots(b.reg) == 1
                 text = pipeline.render(b.reg, fw, layout)
